@@ -160,6 +160,21 @@ func c15Check(r *vhlib.Run, m *vhlib.Model, data []byte, kind string) {
 	if accepted {
 		implObs = "A " + vhlib.Hex(content)
 	}
+	// ... nor on whether the caller drains it with Read or through io.Copy (an io.WriterTo of the Reader)
+	func() {
+		defer func() { recover() }()
+		acc2 := false
+		var c2 []byte
+		if xr, err := xflate.NewReader(bytes.NewReader(data), nil); err == nil {
+			var bb bytes.Buffer
+			if _, err := io.Copy(&bb, io.Reader(xr)); err == nil {
+				acc2, c2 = true, bb.Bytes()
+			}
+		}
+		if acc2 != accepted || !bytes.Equal(c2, content) {
+			r.Violate("acceptance-depends-on-source", fmt.Sprintf("ReadAll: accepted=%v (%d bytes); io.Copy: accepted=%v (%d bytes)", accepted, len(content), acc2, len(c2)), replay)
+		}
+	}()
 	// what is accepted must not depend on how the source fragments its reads
 	for _, cap := range []int{7, 2} {
 		func() {
